@@ -21,7 +21,7 @@ REL_BIN=target/verifrel/rustun-verif
 # codec properties whose subject is the produced / accepted bytes are also decided against the library as a release build
 # compiles it (profile verifrel: no debug assertions, no overflow checks); same generated cases, same oracles
 second_pass() {
-  case "$ID" in C01|C02|C14) ;; *) return 0 ;; esac
+  # every property: a side effect inside debug_assert!, arithmetic that only wraps in release ... can sit anywhere
   if ! cargo build --profile verifrel --offline >"$BUILD_LOG.rel" 2>&1; then
     tail -20 "$BUILD_LOG.rel"; rm -f "$BUILD_LOG.rel"
     echo "INCONCLUSIVE: harness build (profile verifrel) failed"; return 2
@@ -34,7 +34,7 @@ if [ "${1:-}" = "--replay" ]; then
   R="$2"; case "$R" in /*) ;; *) R="$ORIG_PWD/$R";; esac
   "$BIN" "$ID" --replay "$R"; rc=$?
   # a case found by the release-profile pass may only reproduce against that build
-  case "$ID" in C01|C02|C14)
+  case "$ID" in C??)
     if [ $rc -eq 0 ] && cargo build --profile verifrel --offline >/dev/null 2>&1; then
       "$REL_BIN" "$ID" --replay "$R" | sed 's/^REPLAY-PASS/REPLAY-PASS (release profile)/'; rc=${PIPESTATUS[0]}
     fi ;;
@@ -52,7 +52,7 @@ done
 if [ "$TIER" = "thorough" ] && [ -x "$VERIF_DIR/fuzz.sh" ]; then
   second_pass quick; rc=$?
   if [ $rc -ne 0 ]; then exit $rc; fi
-  case "$ID" in C01|C02|C14) export VERIF_REL_PASS=held ;; esac
+  export VERIF_REL_PASS=held
   "$BIN" "$ID" thorough; rc=$?
   if [ $rc -ne 0 ]; then exit $rc; fi
   exec "$VERIF_DIR/fuzz.sh" "$ID"
@@ -60,5 +60,5 @@ fi
 exec_main() { exec "$BIN" "$ID" "$1"; }
 second_pass "$TIER"; rc=$?
 if [ $rc -ne 0 ]; then exit $rc; fi
-case "$ID" in C01|C02|C14) export VERIF_REL_PASS=held ;; esac
+export VERIF_REL_PASS=held
 exec_main "$TIER"
